@@ -98,8 +98,15 @@ def nonNullTy : Ty → Bool
   | .map .defaultdict .str _ => true
   | .map .ordereddict .str _ => true
   | .ntuple _ _ => true
+  | .typeddict _ _ => true
   | .cls _ _ => true
   | _ => false
+
+/-- the entries of a TypedDict value: one optional value per declared key, in declaration order (`none` = key absent) -/
+def tdPresent : List (S × Ty × Bool) → List (Option PyVal) → List (S × PyVal)
+  | f :: fs, some v :: vs => (f.1, v) :: tdPresent fs vs
+  | _ :: fs, none :: vs => tdPresent fs vs
+  | _, _ => []
 
 /-- value `v` conforms to type `t`, for the fragment: int, str, bool, Optional, list, dict[str, ·], plain dataclasses -/
 inductive Conf (std : Std) (cfg : Option MetaCfg) : Ty → PyVal → Prop
@@ -141,6 +148,11 @@ inductive Conf (std : Std) (cfg : Option MetaCfg) : Ty → PyVal → Prop
   | ntuple (name : S) (fields : List (S × Ty × Option Dflt)) (xs : List PyVal) : xs.length = fields.length →
       (∀ p ∈ (fields.map (·.2.1)).zip xs, Conf std cfg p.1 p.2) →
       Conf std cfg (.ntuple name fields) (.ntuple name (fields.map (·.1)) xs)
+  | typeddict (name : S) (fields : List (S × Ty × Bool)) (vals : List (Option PyVal)) :
+      (fields.map (·.1)).Nodup → vals.length = fields.length →
+      (∀ p ∈ fields.zip vals, p.2 = none → p.1.2.2 = false) →
+      (∀ p ∈ fields.zip vals, ∀ v, p.2 = some v → Conf std cfg p.1.2.1 v) →
+      Conf std cfg (.typeddict name fields) (.map .dict ((tdPresent fields vals).map (fun p => (.str p.1, p.2))))
 
 
 /-- the round-trip statement for one value -/
@@ -290,6 +302,149 @@ theorem rt_dict (std : Std) (cfg : Option MetaCfg) (t : Ty) (kvs : List (S × Py
     simp only [hm, bind, Except.bind, mkMap, hall, if_true, pure, Except.pure]
     simp only [List.map_nil, List.nil_append] at hfold
     rw [hfold]
+
+
+/-! ### TypedDict values -/
+
+theorem tdPresent_keys_sublist : ∀ (fs : List (S × Ty × Bool)) (vals : List (Option PyVal)),
+    ((tdPresent fs vals).map (·.1)).Sublist (fs.map (·.1))
+  | [], vals => by cases vals <;> simp [tdPresent]
+  | f :: fs, [] => by simp [tdPresent]
+  | f :: fs, some v :: vs => by
+    simp only [tdPresent, List.map_cons]
+    exact (tdPresent_keys_sublist fs vs).cons_cons _
+  | f :: fs, none :: vs => by
+    simp only [tdPresent, List.map_cons]
+    exact (tdPresent_keys_sublist fs vs).cons _
+
+theorem tdPresent_mem : ∀ (fs : List (S × Ty × Bool)) (vals : List (Option PyVal)) (f : S × Ty × Bool) (v : PyVal),
+    (f, some v) ∈ fs.zip vals → (f.1, v) ∈ tdPresent fs vals
+  | [], vals, f, v, h => by simp at h
+  | g :: fs, [], f, v, h => by simp at h
+  | g :: fs, some w :: vs, f, v, h => by
+    simp only [List.zip_cons_cons, List.mem_cons, Prod.mk.injEq, Option.some.injEq] at h
+    simp only [tdPresent, List.mem_cons, Prod.mk.injEq]
+    rcases h with ⟨rfl, rfl⟩ | h
+    · exact Or.inl ⟨rfl, rfl⟩
+    · exact Or.inr (tdPresent_mem fs vs f v h)
+  | g :: fs, none :: vs, f, v, h => by
+    simp only [List.zip_cons_cons, List.mem_cons, Prod.mk.injEq, reduceCtorEq, and_false, false_or] at h
+    simp only [tdPresent]
+    exact tdPresent_mem fs vs f v h
+
+theorem tdPresent_absent : ∀ (fs : List (S × Ty × Bool)) (vals : List (Option PyVal)) (f : S × Ty × Bool),
+    (fs.map (·.1)).Nodup → (f, none) ∈ fs.zip vals → f.1 ∉ (tdPresent fs vals).map (·.1)
+  | [], vals, f, _, h => by simp at h
+  | g :: fs, [], f, _, h => by simp at h
+  | g :: fs, some w :: vs, f, hnd, h => by
+    simp only [List.zip_cons_cons, List.mem_cons, Prod.mk.injEq, reduceCtorEq, and_false, false_or] at h
+    simp only [List.map_cons, List.nodup_cons] at hnd
+    simp only [tdPresent, List.map_cons, List.mem_cons, not_or]
+    refine ⟨?_, tdPresent_absent fs vs f hnd.2 h⟩
+    intro heq
+    exact hnd.1 (heq ▸ List.mem_map.2 ⟨f, (List.of_mem_zip h).1, rfl⟩)
+  | g :: fs, none :: vs, f, hnd, h => by
+    simp only [List.zip_cons_cons, List.mem_cons, Prod.mk.injEq, and_true] at h
+    simp only [List.map_cons, List.nodup_cons] at hnd
+    simp only [tdPresent]
+    rcases h with rfl | h
+    · intro hmem
+      exact hnd.1 ((tdPresent_keys_sublist fs vs).subset hmem)
+    · exact tdPresent_absent fs vs f hnd.2 h
+
+/-- what the dumped pairs of a `dict[str, ·]` value look like from the loader's side: a key that is not there is not
+found, and (distinct keys) each key is found with the dump of its own value -/
+theorem dumpPairs_find (std : Std) (cfg : Option MetaCfg) : ∀ (kvs : List (S × PyVal)) (ps : List (DVal × DVal)),
+    dumpPairs std false cfg (kvs.map pyPair) = .ok ps →
+    (∀ k, k ∉ kvs.map (·.1) → (toJPairs ps).find? (fun kv => kv.1 == k) = none) ∧
+    ((kvs.map (·.1)).Nodup → ∀ p ∈ kvs, ∃ d, dumpV std false cfg p.2 = .ok d ∧
+      (toJPairs ps).find? (fun kv => kv.1 == p.1) = some (p.1, toJ d))
+  | [], ps, h => by
+    simp only [List.map_nil, dumpPairs, pure, Except.pure, Except.ok.injEq] at h; subst h
+    simp [toJPairs]
+  | (k, v) :: r, ps, h => by
+    simp only [List.map_cons, pyPair, dumpPairs, bind, Except.bind, dump_str] at h
+    split at h
+    · simp at h
+    · next v' hv =>
+      split at h
+      · simp at h
+      · next r' hr =>
+        simp only [pure, Except.pure, Except.ok.injEq] at h; subst h
+        obtain ⟨ih1, ih2⟩ := dumpPairs_find std cfg r r' hr
+        refine ⟨?_, ?_⟩
+        · intro k' hk'
+          simp only [List.map_cons, List.mem_cons, not_or] at hk'
+          simp only [toJPairs, keyStr, List.find?_cons]
+          have : (k == k') = false := by
+            simp only [beq_eq_false_iff_ne, ne_eq]; exact fun e => hk'.1 e.symm
+          simp only [this]
+          exact ih1 k' hk'.2
+        · intro hnd p hp
+          simp only [List.map_cons, List.nodup_cons] at hnd
+          simp only [List.mem_cons] at hp
+          rcases hp with rfl | hp
+          · exact ⟨v', hv, by simp [toJPairs, keyStr]⟩
+          · obtain ⟨d, hd1, hd2⟩ := ih2 hnd.2 p hp
+            refine ⟨d, hd1, ?_⟩
+            simp only [toJPairs, keyStr, List.find?_cons]
+            have : (k == p.1) = false := by
+              simp only [beq_eq_false_iff_ne, ne_eq]
+              intro e
+              exact hnd.1 (e ▸ List.mem_map.2 ⟨p, hp, rfl⟩)
+            simp only [this]
+            exact hd2
+
+/-- `load_to_typed_dict` over a document in which every present key holds the dump of a value that round-trips and
+every absent key is optional -/
+theorem loadTd_present (std : Std) (cfg : Option MetaCfg) (J : List (S × JVal)) :
+    ∀ (fs : List (S × Ty × Bool)) (vals : List (Option PyVal)), vals.length = fs.length →
+    (∀ p ∈ fs.zip vals, p.2 = none → p.1.2.2 = false ∧ J.find? (fun kv => kv.1 == p.1.1) = none) →
+    (∀ p ∈ fs.zip vals, ∀ v, p.2 = some v → ∃ d, dumpV std false cfg v = .ok d ∧
+        J.find? (fun kv => kv.1 == p.1.1) = some (p.1.1, toJ d) ∧ RT std cfg p.1.2.1 v) →
+    loadTd std cfg fs J = .ok ((tdPresent fs vals).map pyPair)
+  | [], vals, _, _, _ => by cases vals <;> simp [loadTd, tdPresent, pure, Except.pure]
+  | f :: fs, [], hl, _, _ => by simp at hl
+  | (k, t, req) :: fs, none :: vs, hl, hn, hs => by
+    obtain ⟨hreq, hfind⟩ := hn ((k, t, req), none) (by simp) rfl
+    simp only at hreq hfind
+    have ih := loadTd_present std cfg J fs vs (by simpa using hl)
+      (fun p hp => hn p (by simp [hp])) (fun p hp => hs p (by simp [hp]))
+    subst hreq
+    simp only [loadTd, hfind, tdPresent, ih]
+    simp
+  | (k, t, req) :: fs, some v :: vs, hl, hn, hs => by
+    obtain ⟨d, hd, hfind, hrt⟩ := hs ((k, t, req), some v) (by simp) v rfl
+    simp only at hfind hrt
+    have ih := loadTd_present std cfg J fs vs (by simpa using hl)
+      (fun p hp => hn p (by simp [hp])) (fun p hp => hs p (by simp [hp]))
+    simp only [loadTd, hfind, tdPresent, ih, hrt d hd, bind, Except.bind, pure, Except.pure, List.map_cons, pyPair]
+
+theorem rt_typeddict (std : Std) (cfg : Option MetaCfg) (name : S) (fields : List (S × Ty × Bool)) (vals : List (Option PyVal))
+    (hnd : (fields.map (·.1)).Nodup) (hl : vals.length = fields.length)
+    (hopt : ∀ p ∈ fields.zip vals, p.2 = none → p.1.2.2 = false)
+    (ih : ∀ p ∈ fields.zip vals, ∀ v, p.2 = some v → RT std cfg p.1.2.1 v) :
+    RT std cfg (.typeddict name fields) (.map .dict ((tdPresent fields vals).map pyPair)) := by
+  intro d h
+  rw [dumpV_dict] at h
+  cases hd : dumpPairs std false cfg ((tdPresent fields vals).map pyPair) with
+  | error e => simp [hd, Except.map] at h
+  | ok ps =>
+    simp [hd, Except.map] at h; subst h
+    obtain ⟨hnone, hsome⟩ := dumpPairs_find std cfg (tdPresent fields vals) ps hd
+    have hndp : ((tdPresent fields vals).map (·.1)).Nodup := (tdPresent_keys_sublist fields vals).nodup hnd
+    have hload := loadTd_present std cfg (toJPairs ps) fields vals hl
+      (fun p hp hpn => ⟨hopt p hp hpn, hnone p.1.1 (tdPresent_absent fields vals p.1 hnd (by
+        have : p = (p.1, none) := by rw [← hpn]
+        rw [← this]; exact hp))⟩)
+      (fun p hp v hpv => by
+        obtain ⟨d, hd1, hd2⟩ := hsome hndp (p.1.1, v) (tdPresent_mem fields vals p.1 v (by
+          have : p = (p.1, some v) := by rw [← hpv]
+          rw [← this]; exact hp))
+        exact ⟨d, hd1, hd2, ih p hp v hpv⟩)
+    have htj : toJ (.dict false ps) = .dict (toJPairs ps) := by rw [toJ]
+    rw [htj, loadD]
+    simp only [hload, pure, Except.pure]
 
 theorem dumpV_tuple (std : Std) (cfg : Option MetaCfg) (xs : List PyVal) :
     dumpV std false cfg (.tuple xs) = (dumpList std false cfg xs).map DVal.tuple := by
@@ -664,6 +819,10 @@ theorem dump_nonnull (std : Std) (cfg : Option MetaCfg) (t : Ty) (v : PyVal) (hc
     cases hd : dumpPairs std false cfg (kvs.map (fun p => (PyVal.str p.1, p.2))) <;> simp [hd, Except.map] at h
     subst h; simp [toJ]
   | literal vs l _ => simp [nonNullTy] at hn
+  | typeddict name fields vals _ _ _ _ =>
+    rw [dumpV_dict] at h
+    cases hd : dumpPairs std false cfg ((tdPresent fields vals).map (fun p => (PyVal.str p.1, p.2))) <;> simp [hd, Except.map] at h
+    subst h; simp [toJ]
   | ntuple name fields xs _ _ =>
     rw [dumpV_ntuple] at h
     cases hd : dumpList std false cfg xs <;> simp [hd, Except.map] at h
@@ -1031,6 +1190,7 @@ theorem roundtrip (std : Std) (cfg : Option MetaCfg) (laws : StdLaws std) (t : T
   | ordereddict t kvs hnd _ ih => exact rt_mapk std cfg .ordereddict true t kvs (dumpV_ordereddict std cfg) hnd ih
   | literal vs l hf => exact rt_literal std cfg vs l hf
   | ntuple name fields xs hl _ ih => exact rt_ntuple std cfg name fields xs hl ih
+  | typeddict name fields vals hnd hl hopt _ ih => exact rt_typeddict std cfg name fields vals hnd hl hopt ih
 
 
 theorem orElse_self (o : MetaCfg) : o.orElse o = o := by
